@@ -122,12 +122,19 @@ Ltac keep_carry := repeat match goal with H : ?T |- _ => lazymatch T with
   | (-1 <= _ <= 1) => fail | (256 <= _) => fail | (0 < _) => fail | _ => clear H end end.
 Ltac flia := first [ solve [keep_nat; lia] | solve [keep_carry; lia] | lia ].
 
-Theorem toom3w_ok (rec_same : mulfn) c s a b :
+(** what the proof needs of div::div_by_word_in_place(_, k) / shift::shr_in_place(_, 1): the quotient in the
+    same number of words, and a zero remainder whenever the division is exact *)
+Definition divk_ok (k : Z) (f : list Z -> list Z * Z) : Prop :=
+  forall t q r, wfw t -> f t = (q, r) ->
+    val q = val t / k /\ (val t mod k = 0 -> r = 0) /\ wfw q /\ length q = length t.
+
+Theorem toom3g_ok (div6 shr1 : list Z -> list Z * Z) (rec_same : mulfn) c s a b :
+  divk_ok 6 div6 -> divk_ok 2 shr1 ->
   pre w c a b -> length a = length b -> (16 <= length a)%nat -> same_ok w rec_same (length a) ->
-  mul_ok w (toom3w_same_len w rec_same) c s a b.
+  mul_ok w (toom3g_same_len w div6 shr1 rec_same) c s a b.
 Proof.
-  intros (Hc & Ha & Hb & L) Lab Hn Hrec. pose proof (BB_sq_ge w w_ge) as HB2.
-  unfold mul_ok, toom3w_same_len. cbv zeta.
+  intros Hdiv6 Hshr1 (Hc & Ha & Hb & L) Lab Hn Hrec. pose proof (BB_sq_ge w w_ge) as HB2.
+  unfold mul_ok, toom3g_same_len. cbv zeta.
   destruct (sixteen_facts (length a) Hn) as (M1 & M2 & M3 & M4 & M5). cbv zeta in M1, M2, M3, M4, M5.
   set (n := length a) in *. set (n3 := ((n + 2) / 3)%nat) in *.
   set (a0 := firstn n3 a). set (a1 := slice n3 n3 a). set (a2 := skipn (2 * n3) a).
@@ -278,10 +285,11 @@ Proof.
   destruct Ht1c as (t1c & E16 & Lt1c & Wt1c & Vt1c). rewrite E16. cbn [Z.eqb negb].
   (* exact divisions *)
   assert (Vt2b' : val t2b = (c0 + q2 + c4') * 2) by (clear - Vt2b; lia).
-  rewrite Vt1c, Vt2b'. rewrite !Z.mod_mul, !Z.div_mul by flia. cbn [Z.eqb negb orb].
-  destruct (val_to_words_lt w w_ge m (c0 + q2 + q3 + c4') ltac:(rewrite Pm; clear - C0 C2 C3 C4 HB2 HX; nia)) as (Lu1 & Wu1 & Vu1).
-  destruct (val_to_words_lt w w_ge m (c0 + q2 + c4') ltac:(rewrite Pm; clear - C0 C2 C4 HB2 HX; nia)) as (Lu2 & Wu2 & Vu2).
-  set (u1 := to_words w m (c0 + q2 + q3 + c4')) in *. set (u2 := to_words w m (c0 + q2 + c4')) in *.
+  destruct (div6 t1c) as [u1 r1] eqn:Ed1. destruct (Hdiv6 t1c u1 r1 Wt1c Ed1) as (Vu1 & Ru1 & Wu1 & Lu1).
+  destruct (shr1 t2b) as [u2 r2] eqn:Ed2. destruct (Hshr1 t2b u2 r2 Wt2b Ed2) as (Vu2 & Ru2 & Wu2 & Lu2).
+  rewrite Vt1c in Vu1, Ru1. rewrite Vt2b' in Vu2, Ru2. rewrite Z.mod_mul in Ru1, Ru2 by lia. rewrite Z.div_mul in Vu1, Vu2 by lia.
+  rewrite (Ru1 eq_refl), (Ru2 eq_refl). cbn [Z.eqb negb orb]. clear Ru1 Ru2.
+  rewrite Lt1c in Lu1. rewrite Lt2b in Lu2.
   (* ---- interpolation *)
   destruct (add_signed_same_len_in_place w (slice n3 m c5) (sign_neg s) u1) as [x6 k1b] eqn:E17.
   destruct (step_signed_same w w_ge c5 n3 m (sign_neg s) u1 x6 k1b ltac:(flia) W5 Wu1 Lu1 E17) as (L6 & W6 & K1b & V6).
@@ -342,5 +350,19 @@ Proof.
   assert (Hc5 : kf * (X * X * X * X * X * BW * Y5) = kf * P) by (rewrite Pc'; ring).
   fold X. rewrite Z.mul_add_distr_r, <- Hc4, <- Hc5. ring.
 Qed.
+
+Lemma div_small_by_value_ok k : 0 < k -> divk_ok k (div_small_by_value w k).
+Proof.
+  intros Hk t q r Wt E. unfold div_small_by_value in E. inversion E; subst q r; clear E.
+  pose proof (value_bounds w w_pos t Wt) as Bt.
+  assert (0 <= val t / k < BB ^ len t).
+  { split; [apply Z.div_pos; lia|]. apply Z.div_lt_upper_bound; [lia|]. nia. }
+  split; [apply value_to_words; [exact w_pos | exact H]|]. split; [auto|]. split; [apply to_words_wf; exact w_pos | apply to_words_length].
+Qed.
+
+Theorem toom3w_ok (rec_same : mulfn) c s a b :
+  pre w c a b -> length a = length b -> (16 <= length a)%nat -> same_ok w rec_same (length a) ->
+  mul_ok w (toom3w_same_len w rec_same) c s a b.
+Proof. apply toom3g_ok; apply div_small_by_value_ok; lia. Qed.
 
 End ToomWProofs.
